@@ -70,6 +70,15 @@ inductive MessageDedup where
   | other
   deriving Repr, DecidableEq
 
+/-- how the class -> handler tables (`cdict`) pick the entry of a class with several bases -/
+inductive HandlerLookup where
+  | spyneBase   -- the entry of the class' spyne base wins wherever plain mixins stand (good)
+  | lastBase    -- bases are tried from the last one: `class X(ComplexModel, Mixin)` resolves to the catch-all `object`
+                --   entry (pinned tree: `reversed(cls.__bases__)`)
+  | firstBase   -- bases are tried from the first one: `class X(Mixin, ComplexModel)` resolves to the catch-all entry
+  | other
+  deriving Repr, DecidableEq
+
 structure Facts07 where
   importsIter : ImportsIter
   tierTies : TierTies
@@ -77,6 +86,7 @@ structure Facts07 where
   opPortType : OpPortType
   faultNs : FaultNs
   messageDedup : MessageDedup
+  handlerLookup : HandlerLookup
   /-- `spyne.const.xml.NSMAP` has no prefix of the form `s<digits>` and none called `tns` -/
   staticPrefixesClean : Bool
   deriving Repr
@@ -134,9 +144,11 @@ structure Cls where
   subNs : SubNs
   wsdlPart : Option String
   enums : List String           -- enumeration values (Enum / `values=` customisation)
+  mixinFirst : Bool             -- walking `__bases__` front to back reaches `object` before a spyne model class
+  mixinLast : Bool              -- walking `__bases__` back to front reaches `object` before a spyne model class
   deriving Repr, DecidableEq
 
-instance : Inhabited Cls := ⟨⟨"", "", "", .builtin, none, [], none, .unset, none, []⟩⟩
+instance : Inhabited Cls := ⟨⟨"", "", "", .builtin, none, [], none, .unset, none, [], false, false⟩⟩
 
 structure Meth where
   name : String                 -- `MethodDescriptor.name`
@@ -159,6 +171,7 @@ structure IState where
   tns : String
   name : String                          -- application name
   staticNs : List (String × String)      -- `spyne.const.xml.NSMAP` (prefix, namespace), in dict order
+  pins : List (Pref × String)            -- prefixes put into `interface.nsmap` / `prefmap` by the application
   classes : List Cls                     -- class objects; the index is the object's identity
   deps : List (Nat × List Nat)           -- `Interface.deps` in dict order; values are sets
   imports : List (String × List String)  -- `Interface.imports` in dict order; values are sets
@@ -248,24 +261,38 @@ def topo (F : Facts07) (e : Enum) (key : Nat → List Nat) (d : Deps) : Outcome 
     if r.2.isEmpty then .ok r.1 else .crash "AssertionError"
 /-! ## Namespace prefixes (`Interface.get_namespace_prefix`) -/
 
+/-- odict assignment: replace in place or append -/
+def upsert {κ β : Type} [DecidableEq κ] (k : κ) (v : β) : List (κ × β) → List (κ × β)
+  | [] => [(k, v)]
+  | kv :: r => if kv.1 = k then (k, v) :: r else kv :: upsert k v r
+
+
 structure Prefs where
   prefmap : List (String × Pref)   -- namespace -> prefix
   nsmap : List (Pref × String)     -- prefix -> namespace
   counter : Nat
   deriving Repr, DecidableEq
 
+/-- `while pref in self.nsmap: self.__ns_counter += 1`: the first index from `k` on whose `s<k>` is not taken
+    (the fuel, one more than the number of prefixes, always suffices) -/
+def firstFree (keys : List Pref) : Nat → Nat → Nat
+  | 0, k => k
+  | fuel + 1, k => if keys.contains (.gen k) then firstFree keys fuel (k + 1) else k
+
 def Prefs.get (p : Prefs) (ns : String) : Pref × Prefs :=
   match p.prefmap.lookup ns with
   | some pf => (pf, p)
   | none =>
-    (.gen p.counter,
-     { prefmap := p.prefmap ++ [(ns, .gen p.counter)], nsmap := p.nsmap ++ [(.gen p.counter, ns)],
-       counter := p.counter + 1 })
+    let k := firstFree (p.nsmap.map (·.1)) (p.nsmap.length + 1) p.counter
+    (.gen k,
+     { prefmap := p.prefmap ++ [(ns, .gen k)], nsmap := p.nsmap ++ [(.gen k, ns)], counter := k + 1 })
 
-/-- `reset_interface`: the static tables plus `tns` -/
+/-- `reset_interface`: the static tables plus `tns`, then whatever the application pinned (dict assignment) -/
 def Prefs.init (I : IState) : Prefs :=
-  { prefmap := I.staticNs.map (fun pn => (pn.2, Pref.named pn.1)) ++ [(I.tns, .named "tns")],
-    nsmap := I.staticNs.map (fun pn => (Pref.named pn.1, pn.2)) ++ [(.named "tns", I.tns)],
+  { prefmap := I.pins.foldl (fun m pn => upsert pn.2 pn.1 m)
+      (I.staticNs.map (fun pn => (pn.2, Pref.named pn.1)) ++ [(I.tns, .named "tns")]),
+    nsmap := I.pins.foldl (fun m pn => upsert pn.1 pn.2 m)
+      (I.staticNs.map (fun pn => (Pref.named pn.1, pn.2)) ++ [(.named "tns", I.tns)]),
     counter := 0 }
 
 /-- the prefix tables after a sequence of `get_namespace_prefix` calls -/
@@ -308,11 +335,6 @@ structure SInfo where
   types : List (String × TypeDef)
   elements : List (String × ElemDecl)
   deriving Repr, DecidableEq
-
-/-- odict assignment: replace in place or append -/
-def upsert {κ β : Type} [DecidableEq κ] (k : κ) (v : β) : List (κ × β) → List (κ × β)
-  | [] => [(k, v)]
-  | kv :: r => if kv.1 = k then (k, v) :: r else kv :: upsert k v r
 
 /-- `get_schema_info(prefix)` followed by an update of the entry. `XmlSchema.namespaces` is keyed by the prefix
     of the namespace; prefixes and namespaces correspond one to one, the model keys it by the namespace. -/
@@ -746,9 +768,17 @@ def IState.addMethodFaults (F : Facts07) (I : IState) : IState :=
         if I.faultIds.contains i then { I.cls i with ns := I.tns } else I.cls i }
   | _ => I
 
-/-- the WSDL of an application: `add_method`'s fault step, then `build_interface_document` -/
+/-- the handler `_add_handlers[cls]` selects: the entry of the class' spyne base, unless the table walks the bases
+    front to back and meets a plain mixin first (then the catch-all entry: no schema node) -/
+def IState.resolveHandlers (F : Facts07) (I : IState) : IState :=
+  match F.handlerLookup with
+  | .spyneBase => I
+  | .lastBase => { I with classes := I.classes.map fun c => if c.mixinLast then { c with kind := .builtin } else c }
+  | _ => { I with classes := I.classes.map fun c => if c.mixinFirst then { c with kind := .builtin } else c }
+
+/-- the WSDL of an application: handler selection, `add_method`'s fault step, then `build_interface_document` -/
 def build (F : Facts07) (e : Enum) (I : IState) (url : String) : Outcome Doc :=
-  gen F e (I.addMethodFaults F) url
+  gen F e ((I.resolveHandlers F).addMethodFaults F) url
 
 /-! ## Reference resolution (the specification side of "closed") -/
 
@@ -904,9 +934,12 @@ def IState.faultsTns (I : IState) : Bool := (allMethods I).all fun m => m.faults
 def IState.wfCore (I : IState) : Bool :=
   (List.range I.classes.length).all I.wfCls && I.graph.all (fun i => i < I.classes.length) &&
   (allMethods I).all I.wfMeth &&
-  -- the static prefix table is a bijection, contains the XSD namespace and not the tns
-  (I.staticNs.map (·.1)).Nodup && (I.staticNs.map (·.2)).Nodup &&
-  I.staticNs.contains ("xs", nsXsd) && !(I.staticNs.map (·.2)).contains I.tns && !(I.staticNs.map (·.1)).contains "tns" &&
+  -- the initial prefix tables (static, tns, pinned by the application) are consistent: the prefix of a namespace
+  -- is declared for that namespace; the XSD namespace and the tns have a prefix
+  ((Prefs.init I).prefmap.map (·.1)).all (fun ns => match (Prefs.init I).prefmap.lookup ns with
+    | some pf => (Prefs.init I).nsmap.lookup pf == some ns
+    | none => true) &&
+  ((Prefs.init I).prefmap.lookup nsXsd).isSome && ((Prefs.init I).prefmap.lookup I.tns).isSome &&
   -- every namespace that gets a schema has an entry in `imports`
   I.graph.all (fun i => (I.cls i).kind == .builtin || (I.imports.map (·.1)).contains (I.cls i).ns) &&
   (I.imports.map (·.1)).contains I.tns &&
